@@ -4,17 +4,20 @@
 package node
 
 import (
+	"bytes"
 	"context"
 	"fmt"
 	"io"
 	"log"
 	"net"
+	"net/http/httptest"
 	"os"
 	"path/filepath"
 	"time"
 
 	"github.com/rqlite/rqlite/v10/auth"
 	"github.com/rqlite/rqlite/v10/cluster"
+	httpd "github.com/rqlite/rqlite/v10/http"
 	"github.com/rqlite/rqlite/v10/proxy"
 	"github.com/rqlite/rqlite/v10/store"
 	"github.com/rqlite/rqlite/v10/tcp"
@@ -66,12 +69,40 @@ type Node struct {
 	Svc   *cluster.Service
 	Cli   *cluster.Client
 	Proxy *proxy.Proxy
+	HTTP  *httpd.Service // only when WithHTTP is set
+
+	WithHTTP     bool
+	QueueCap     int
+	QueueBatchSz int
+	QueueTimeout time.Duration
+	QueueTx      bool
 
 	Up        bool
 	Starts    int
 	Extra     func(n *Node) error // optional hook run after the store is constructed, before Open
 	AfterOpen func(n *Node) error
 	OnStop    func(n *Node)
+	httpLn    *simnet.Listener
+}
+
+// HTTPDo sends one request to the node's real HTTP service by calling its
+// ServeHTTP directly (no socket) and returns the recorded response. It blocks
+// like a real request would, so call it from a task.
+func (n *Node) HTTPDo(method, target, contentType string, body []byte, user, pass string) *httptest.ResponseRecorder {
+	var rd io.Reader
+	if body != nil {
+		rd = bytes.NewReader(body)
+	}
+	req := httptest.NewRequest(method, "http://"+n.HTTPAddr+target, rd)
+	if contentType != "" {
+		req.Header.Set("Content-Type", contentType)
+	}
+	if user != "" || pass != "" {
+		req.SetBasicAuth(user, pass)
+	}
+	w := httptest.NewRecorder()
+	n.HTTP.ServeHTTP(w, req)
+	return w
 }
 
 // raftLayer is the 20-line stand-in for tcp.Layer/tcp.Dialer: it dials over
@@ -196,6 +227,33 @@ func (n *Node) Start() error {
 	n.Proxy = proxy.New(str, cli)
 	n.Proxy.SetAPIAddr(n.HTTPAddr)
 
+	if n.WithHTTP {
+		var hcs httpd.CredentialStore
+		if n.Creds != nil {
+			hcs = n.Creds
+		}
+		hs := httpd.New(n.HTTPAddr, str, cli, n.Proxy, hcs)
+		if n.QueueCap != 0 {
+			hs.DefaultQueueCap = n.QueueCap
+		}
+		if n.QueueBatchSz != 0 {
+			hs.DefaultQueueBatchSz = n.QueueBatchSz
+		}
+		if n.QueueTimeout != 0 {
+			hs.DefaultQueueTimeout = n.QueueTimeout
+		}
+		hs.DefaultQueueTx = n.QueueTx
+		hln, err := n.Host.Listen(HTTPPort)
+		if err != nil {
+			return err
+		}
+		n.httpLn = hln
+		if err := hs.StartVerif(hln); err != nil {
+			return err
+		}
+		n.HTTP = hs
+	}
+
 	if n.Extra != nil {
 		if err := n.Extra(n); err != nil {
 			return err
@@ -216,6 +274,13 @@ func (n *Node) Start() error {
 }
 
 func (n *Node) teardownNet() {
+	if n.HTTP != nil {
+		n.HTTP.Close()
+		n.HTTP = nil
+	}
+	if n.httpLn != nil {
+		n.httpLn.Close()
+	}
 	if n.Svc != nil {
 		n.Svc.Close()
 	}
@@ -263,8 +328,15 @@ func (n *Node) Kill() (finish func() error, err error) {
 	if n.OnStop != nil {
 		n.OnStop(n)
 	}
-	svc, mux, muxLn := n.Svc, n.Mux, n.MuxLn
+	svc, mux, muxLn, hs, hln := n.Svc, n.Mux, n.MuxLn, n.HTTP, n.httpLn
+	n.HTTP = nil
 	return func() error {
+		if hs != nil {
+			hs.Close()
+		}
+		if hln != nil {
+			hln.Close()
+		}
 		svc.Close()
 		muxLn.Close()
 		mux.Close()
